@@ -171,4 +171,33 @@ def runPipeline {M E : Type} (passes : List (M → Except E M)) (strict : Bool) 
     | .ok m' => runPipeline ps strict m'
     | .error e => if strict then .error e else .ok m
 
+/-! ### In-place passes and the transactional failure policy
+
+The real passes MUTATE the model; several rewire a pattern in more than one step. A pass that raises
+therefore leaves the model in whatever state it had reached, which need not mean anything. `Pass`
+models that: the state left behind, and the error if the pass raised. -/
+
+abbrev Pass (M E : Type) := M → M × Option E
+
+/-- run in-place passes until one raises: the state left behind and the error, if any -/
+def runInPlace {M E : Type} : List (Pass M E) → M → M × Option E
+  | [], m => (m, none)
+  | p :: ps, m =>
+    match p m with
+    | (m', none) => runInPlace ps m'
+    | (m', some e) => (m', some e)
+
+/-- the policy of `_optimize_graph_with_failure_policy` BEFORE the repair: on a swallowed failure the
+    conversion continues with the model as the failing pass left it -/
+def policyInPlace {M E : Type} (ps : List (Pass M E)) (strict : Bool) (m : M) : Except E M :=
+  match runInPlace ps m with
+  | (m', none) => .ok m'
+  | (m', some e) => if strict then .error e else .ok m'
+
+/-- the repaired policy: a snapshot taken before optimization is what a swallowed failure falls back to -/
+def policyTx {M E : Type} (ps : List (Pass M E)) (strict : Bool) (m : M) : Except E M :=
+  match runInPlace ps m with
+  | (m', none) => .ok m'
+  | (_, some e) => if strict then .error e else .ok m
+
 end J2O.C16
